@@ -93,6 +93,9 @@ func jobC11(c *rt.Ctx) {
 			}
 		}
 		bad := e1 != nil || e2 != nil || !bytes.Equal(o1, want) || !bytes.Equal(a1[:], want) || !bytes.Equal(a2[:], want) || !bytes.Equal(o2, want) || !bytes.Equal(sc, s)
+		if !bytes.Equal(in[:], s) || !bytes.Equal(b9[:], nine) || Basepoint[0] != 9 {
+			c.Violation("C11 input modified", fmt.Sprintf("ScalarBaseMult / ScalarMult modified an input array (scalar %x)", s), map[string]interface{}{"scalar": ref.Hex(s)})
+		}
 		if c.WantSample() {
 			c.Sample(map[string]interface{}{"scalar": ref.Hex(s), "class": class, "rfc7748": ref.Hex(want), "fast_path": ref.Hex(o1)})
 		}
